@@ -1,0 +1,30 @@
+//go:build verif
+
+package routes
+
+// Contracts for gvc (see /verif/DESIGN.md). Comment-only: this file adds no code to any build.
+
+//@ func getOutputFileMod props C20,C09,C14
+//@ ensures implies(len(requestedPermissions) <= 0, result == 420)
+
+//@ func GetTemplateContext props C20,C14
+//@ requires config != nil
+//@ ensures result1 == nil
+//@ ensures result0.PackageName == ite(len(config.RoutesConfig.PackageName) > 0, config.RoutesConfig.PackageName, "routes")
+//@ ensures result0.AuthConfig == config.RoutesConfig.AuthorizationConfig && result0.ValidateResponsePayload == config.RoutesConfig.ValidateResponsePayload && result0.ExperimentalConfig == config.ExperimentalConfig
+//@ ensures result0.Controllers == fullMeta.Flat && result0.Imports == fullMeta.Imports
+//@ ensures implies(config.RoutesConfig.SkipGenerateDateComment, result0.GenerationDate == "")
+
+// Template plumbing: changes package-level template registries (any heap) but causes no event.
+//@ func registerPartials trusted havocs
+//@ func registerHandlebarsHelpers trusted havocs
+//@ func dumpContext trusted havocs
+//@ func getRoutesTemplateString trusted havocs
+
+//@ func GenerateRoutes props C09,C20,C10,C14 havocs
+//@ requires config != nil
+//@ mayemit wroteFile, formattedCode
+//@ ensures once: evcount(wroteFile) <= old(evcount(wroteFile))+1
+//@ ensures gate: implies(evcount(wroteFile) > old(evcount(wroteFile)), evcount(formattedCode) > old(evcount(formattedCode)) && evlast(formattedCode, 0))
+//@ ensures path: implies(evcount(wroteFile) > old(evcount(wroteFile)), evlast(wroteFile, 0) == old(config.RoutesConfig.OutputPath))
+//@ ensures ok: implies(result == nil, evcount(wroteFile) == old(evcount(wroteFile))+1)
